@@ -13,7 +13,7 @@ CLAIMS = {
  "C01": ("One inductive step of Processor.Process from an arbitrary protocol phase (symbolic state, packet type, body, callbacks, dial outcome) plus K-packet histories from the initial state; "
          "asserts success-only-in-order, dial only in phase 3 after the host check and at most once, relay only on DATA with an open channel, nothing read after an error/close response, loop invariant re-established. "
          "Bounded model checking is the right level: the quantifier is over all packet histories, which the step covers by induction (paper argument) and the K-bounded run cross-checks.",
-         "6.C01", "Transport, net.Conn, net.DialTimeout and the three policy callbacks are stubs with the contracts of DESIGN Appendix C; body <= 10 (quick) / 24 (thorough) bytes; inner declared lengths <= carried+4; client-name units after the first are ASCII; induction over steps is a paper argument; the websocket/legacy transports themselves are outside; 'token authentication implies a wired cookie check' is checked on the real main() (VP_C05_routes)."),
+         "6.C01", "Transport, net.Conn, net.DialTimeout and the three policy callbacks are stubs with the contracts of DESIGN Appendix C; body <= 10 (quick) / 14 (thorough) bytes; inner declared lengths <= carried+4; client-name units after the first are ASCII; induction over steps is a paper argument; the websocket/legacy transports themselves are outside; 'token authentication implies a wired cookie check' is checked on the real main() (VP_C05_routes)."),
  "C02": ("security.CheckPAACookie and GeneratePAAToken executed symbolically around contract stubs of go-jose/go-oidc: acceptance implies HS256 allow-list, MAC under the PAA signing key (not any other gateway key), issuer, expiry with the real go-jose Validate arithmetic over symbolic times, IdP verdict on the embedded access token, tunnel bound to the verified claims; minting: HS256 + signing key, expiry - now <= 300 s, refusal under 32 bytes.",
          "6.C02", "Cryptography is replaced by contracts (DESIGN Appendix C): unforgeability, base64/JSON parsing, bit-mutation resistance and 'a freshly minted token is accepted' are NOT decided; claim strings are 2 (4) symbolic bytes."),
  "C03": ("channelRequest/DecodeUTF16 decoded against an independent per-code-unit oracle for all names up to 3 (quick) / 5 (thorough) UTF-16 units and all declared sizes; the step harness proves the string given to CheckHost is byte-equal to the string dialed and that a refusal dials nothing; security.CheckHost/CheckSession policy over bounded host lists and names against an oracle written from the property text.",
